@@ -30,6 +30,8 @@ def azi_to_ra_transform(azi, mjd):
     sidereal_day_residuals = (mjd / _sidereal_length) % 1
     ra = _sidereal_offset + 2 * np.pi * sidereal_day_residuals - azi
     ra = np.mod(ra, 2*np.pi)
+    # The modulo of a tiny negative angle rounds to exactly 2pi: wrap it to 0.
+    ra = np.mod(ra, 2*np.pi)
 
     return ra
 
